@@ -1575,7 +1575,8 @@ def run(chk: framework.Check):
                          "unstruct_collection_overrides absent/{}/user entries, float user hooks}; "
                          "non-trivial = non-leaf type; distinct by canonical text.  Histogram keys `ext:*` belong to the "
                          "implementation-only oracle stream (spill-over unions mixing native members / NewTypes with classes "
-                         "and collections, classes with defaults and attrs field converters, Literal types mixing enum members "
+                         "and collections; unions whose only natively handled members are Literals - next to classes, "
+                         "collections, date/datetime, or on their own: keys ext:union-natives:*; classes with defaults and attrs field converters, Literal types mixing enum members "
                          "with primitive alternatives, a user value hook on an enum class): no model, no theorem.  Main stream "
                          "also: attrs fields with explicit aliases (model is alias-blind), typing.NamedTuple classes (the model "
                          "is told the heterogeneous tuple of the field types; json/pyyaml under model+oracle, msgspec oracle only)")
